@@ -550,6 +550,12 @@ def directed_arms():
                 out.append({"kind": "arms", "H": 1, "W": len(row), "image": img, "dist": dist, "intensity": inten})
                 col = [[v] for v in img[0]]
                 out.append({"kind": "arms", "H": len(row), "W": 1, "image": col, "dist": dist, "intensity": inten})
+    # arms longer than 255 / 32767 would not fit a narrower storage type (seed C11-4): long smooth lines, large cbca_distance
+    for n, dist in ((300, 280), (330, 300), (270, 1000)):
+        row = [str(5 + (i % 2)) for i in range(n)]
+        row[n // 3] = None if n == 330 else row[n // 3]
+        out.append({"kind": "arms", "H": 1, "W": n, "image": [row], "dist": dist, "intensity": "5"})
+        out.append({"kind": "arms", "H": n, "W": 1, "image": [[v] for v in row], "dist": dist, "intensity": "5"})
     return out
 
 
